@@ -9,6 +9,8 @@ CONFIGS = {
     "adapt_sp2": dict(scf_converger=[1], sp2=[True, 1e-7]), "pulay_sp2": dict(scf_converger=[2], sp2=[True, 1e-7]), "uhf_adapt": dict(scf_converger=[1], UHF=True),
     "uhf_mix": dict(scf_converger=[0, 0.3], UHF=True), "adapt_tight": dict(scf_converger=[1], scf_eps=1e-10), "pulay_loose": dict(scf_converger=[2], scf_eps=1e-6),
     # purification threshold requested below the supported floor (the code clamps it to the floor)
+    # Krylov subspace approximation solver (finite electronic temperature far below the gap)
+    "ksa3": dict(scf_converger=[3, {"max_rank": 3, "err_threshold": 0.0, "T_el": 1500.0}]), "ksa2": dict(scf_converger=[3, {"max_rank": 2, "err_threshold": 0.0, "T_el": 300.0}]),
     "adapt_sp2_tiny": dict(scf_converger=[1], sp2=[True, 1e-10]), "mix_sp2_tiny": dict(scf_converger=[0, 0.3], sp2=[True, 1e-9]),
 }
 EPS_DEFAULT = 1e-8
